@@ -171,9 +171,11 @@ def do_step(step: dict, workdir: str) -> dict:
     feed = SymFeed(step.get('nonce', 0))
     result = {'ok': True}
     if op in ('train', 'apply', 'perftrack', 'traintest'):
-        runner = dask_runner.Runner(instance, feed, SymSink(out), scheduler='synchronous')
+        # ``Launcher.train_call`` (the CLI's ``forml model train``) builds its runner without any sink
+        sink = None if (op == 'train' and step.get('nosink')) else SymSink(out)
+        runner = dask_runner.Runner(instance, feed, sink, scheduler='synchronous')
         getattr(runner, {'train': 'train', 'apply': 'apply', 'perftrack': 'eval_perftrack', 'traintest': 'eval_traintest'}[op])()
-        result['records'] = read_records(out)
+        result['records'] = read_records(out) if sink is not None else []
     elif op == 'serve':
         runner = pyfunc.Runner(instance, feed, SymSink(out))
         result['returned'] = [runner.call(entry) for entry in step['entries']]
